@@ -694,6 +694,11 @@ def symlist_method(it, lst, name, node):
 
 
 # ------------------------------------------------------------------------------ str / bytes methods
+def _known_literals():
+    from .values import _intern
+    return _intern
+
+
 def str_method(it, s, name, node):
     def lower(it_, args, kw, n):
         if isinstance(s, str):
@@ -755,6 +760,14 @@ def str_method(it, s, name, node):
     def startswith(it_, args, kw, n):
         if isinstance(s, str) and isinstance(args[0], str):
             return s.startswith(args[0])
+        from .libops import _single_atom
+        t = _single_atom(s)
+        if t is not None and isinstance(args[0], str):
+            # uninterpreted predicate per prefix; exact on the literals known to the run
+            fn = z3.Function('str.startswith.' + args[0], I, B)
+            for lit, k in list(_known_literals().items()):
+                it.ctx.facts.append(fn(z3.IntVal(k)) == z3.BoolVal(lit.startswith(args[0])))
+            return mk_bool(fn(t))
         raise Unsupported('startswith symbolic')
 
     def encode(it_, args, kw, n):
